@@ -99,3 +99,26 @@ Proof.
   { rewrite <- combine_nth by lia. apply nth_In. rewrite combine_length. lia. }
   specialize (E _ Hin). cbn [fst snd] in E. rewrite E in Hr. discriminate.
 Qed.
+
+(* implied by == : the derived PartialEq of every type is the lane-by-lane f64 == (C19), so x == y gives feq on every pair *)
+Lemma forallb_combine_all {A : Type} (r : A -> A -> bool) xs ys : (forall p, In p (combine xs ys) -> r (fst p) (snd p) = true) ->
+  forallb (fun p => r (fst p) (snd p)) (combine xs ys) = true.
+Proof. intros H. apply forallb_forall. exact H. Qed.
+
+Theorem table_of_eq t : table_sem t ->
+  Forall (fun e => forall xs ys eps rel, length xs = snd (fst e) -> length ys = snd (fst e) ->
+    (forall p, In p (combine xs ys) -> feq (fst p) (snd p) = true) ->
+    match fst (fst e) with
+    | RRel => True
+    | RAbs => fle fzero eps = true /\ forall p, In p (combine xs ys) -> is_finite (fst p) = true /\ is_finite (snd p) = true
+    end ->
+    beval FOps0 (env2 xs ys eps rel) (snd e) = true) t.
+Proof.
+  intros H. assert (P := table_pairs t H). rewrite Forall_forall in *. intros e He xs ys eps rel Hx Hy Heq Hk.
+  rewrite (P e He xs ys eps rel Hx Hy). apply forallb_forall. intros p Hp. specialize (Heq p Hp).
+  destruct (fst (fst e)); cbn [scalar_rel].
+  - destruct Hk as [He0 Hf]. destruct (Hf p Hp) as [Fa Fb]. apply absdiffeq_of_equal; try assumption.
+    unfold feq in Heq. rewrite (Beqb_correct _ _ _ _ Fa Fb) in Heq.
+    destruct (Raux.Req_bool_spec (B2R (fst p)) (B2R (snd p))) as [E|E]; [exact E | discriminate].
+  - now apply releq_of_eq.
+Qed.
